@@ -22,7 +22,7 @@ From RQ Require Import Base.Outcome Base.Ints Base.ListX Spec.Linear Model.Octet
   Model.CMatrix Model.Slab Model.PiSolver Proofs.LinearInst
   Proofs.PiSolverBase Proofs.PiSolverOps Proofs.PiSolverG Proofs.PiSolverInvDefs Proofs.PiSolverHist
   Proofs.PiSolverCells Proofs.PiSolverPhase1 Proofs.PiSolverSound Proofs.PiSolverSystem
-  Proofs.PiSolverPlan Proofs.PiSolverExamples Model.SysConst.
+  Proofs.PiSolverPlan Proofs.PiSolverExamples Proofs.PiSolverTotalAll Model.SysConst.
 Import ListNotations.
 Open Scope N_scope.
 
@@ -160,22 +160,59 @@ Theorem C02s_PS_plan_sound : forall m K sp bin hd v,
     NoDup (map N.to_nat ord) /\ length ord = N.to_nat (spL sp).
 Proof. exact pi_plan_sound. Qed.
 
-(* NOT PROVED (kept as statements only):
+(* ---- PS_no_panic / PS_total: the run never panics, in either build variant.  In particular the
+        component-graph bookkeeping never reaches its panicking branches (a row with exactly two ones
+        in V exists whenever r = 2 is selected and the largest component has a node adjacent to such a
+        row; rows counted with two ones have two ones; ids and sizes stay in range; the searches have
+        enough fuel), the column search of the swap substep finds its destinations, and (mode
+        Checked) the *_verify assertions hold.
+        Extra hypotheses with respect to C02s_PS_complete: at least as many rows as columns, the rows
+        S..S+H-1 of the binary matrix (which the HDPC rows replace) are empty left of the PI columns,
+        and fewer than 65535 columns left of the PI columns (first_phase_original_degree_substep
+        starts from u16::MAX and only accepts smaller degrees) ---- *)
+Theorem C02s_PS_total : forall m S H A hdpc L P M W,
+  dims A M W -> 0 < M -> M < 4294967296 -> bin_mat A -> dims hdpc H W -> bytes_mat hdpc ->
+  S + 2 * H <= M -> L = W -> P <= W -> W < 65536 -> W <= M ->
+  (forall k j, S <= k < S + H -> j < W - P -> cell A k j = 0) -> W - P < 65535 ->
+  exists r, pi_run m S H A hdpc L P = Ok r.
+Proof. exact pi_run_total. Qed.
 
-   PS_no_panic_partial: under the hypotheses of C02s_PS_complete,
-       forall c, pi_run m S H A hdpc L P <> Panic c.
-   It would turn C02s_PS_complete into
-   PS_complete_partial:
-       pi_solve m S H A hdpc L P = None <-> ~ injective fmul (N.to_nat W) (full_matrix S H A hdpc).
-   What is missing is the absence of panics in the bookkeeping of the row selection: the assertions of
-   ConnectedComponentGraph (a node of the largest component exists in V and has a row with two ones:
-   `unreachable!()` in first_phase_graph_substep), `assert_eq!(found, 2)` in add_graph_edge, and the
-   fuel of the component search.  They do not influence soundness (a panic returns no list), and on
-   the acceptance corpus (Table 2 K' < 250, 1500 random decoder systems, both profiles) no panic
-   occurred in the model or in the real solver.
-   Everything else that can return None is covered: the first phase never answers None
-   (C02s_PS_first_phase_total with the preservation of cover_s in C02s_PS_invariant), the second phase
-   answers None only for a non-injective matrix. *)
+Theorem C02s_PS_total_no_hdpc : forall m A L P M W,
+  dims A M W -> 0 < M -> M < 4294967296 -> bin_mat A -> L = W -> P <= W -> W < 65536 -> W <= M ->
+  W - P < 65535 ->
+  exists r, pi_run_no_hdpc m A L P = Ok r.
+Proof. exact pi_run_no_hdpc_total. Qed.
+
+(* ---- PS_complete for pi_solve: None exactly for non-injective matrices ---- *)
+Theorem C02s_PS_complete_solve : forall m S H A hdpc L P M W,
+  dims A M W -> 0 < M -> M < 4294967296 -> bin_mat A -> dims hdpc H W -> bytes_mat hdpc ->
+  S + 2 * H <= M -> L = W -> P <= W -> W < 65536 -> W <= M ->
+  (forall k j, S <= k < S + H -> j < W - P -> cell A k j = 0) -> W - P < 65535 ->
+  (forall j, j < W - P -> exists k, k < M /\ (k < S \/ S + H <= k) /\ cell A k j = 1) ->
+  (pi_solve m S H A hdpc L P = None <-> ~ injective fmul (N.to_nat W) (full_matrix S H A hdpc)).
+Proof. exact pi_solve_complete. Qed.
+
+Theorem C02s_PS_complete_solve_no_hdpc : forall m A L P M W,
+  dims A M W -> 0 < M -> M < 4294967296 -> bin_mat A -> L = W -> P <= W -> W < 65536 -> W <= M ->
+  W - P < 65535 ->
+  (forall j, j < W - P -> exists k, k < M /\ cell A k j = 1) ->
+  (pi_solve_no_hdpc m A L P = None <-> ~ injective fmul (N.to_nat W) A).
+Proof. exact pi_solve_no_hdpc_complete. Qed.
+
+(* ---- the systems the crate builds: always Ok, None exactly when rank deficient ---- *)
+Theorem C02s_PS_system_total : forall m K isis sp bin hd,
+  K <= 56403 -> Forall (fun x => x < 2 ^ 32) isis -> lenN isis < 2 ^ 31 ->
+  sys_params K = Ok sp -> generate_constraint_matrix m K isis = Ok (bin, hd) ->
+  exists r, pi_system_run m K isis = Ok r /\
+    (r = None <-> ~ injective fmul (N.to_nat (spL sp)) (full_matrix (spS sp) (spH sp) bin hd)).
+Proof. exact pi_system_total. Qed.
+
+Theorem C02s_PS_system_total_no_hdpc : forall m K isis sp A,
+  K <= 56403 -> Forall (fun x => x < 2 ^ 32) isis -> lenN isis < 2 ^ 31 ->
+  sys_params K = Ok sp -> generate_constraint_matrix_no_hdpc m K isis = Ok A ->
+  exists r, pi_system_run_no_hdpc m K isis = Ok r /\
+    (r = None <-> ~ injective fmul (N.to_nat (spL sp)) A).
+Proof. exact pi_system_no_hdpc_total. Qed.
 
 (* ---- non-vacuity: the encoding matrix of K' = 10 (S = 7, H = 10, L = 27, P = 10) ---- *)
 Definition ex_sys : outcome (list (list N) * list (list N)) :=
@@ -185,14 +222,16 @@ Definition ex_hdpc : list (list N) := match ex_sys with Ok (_, h) => h | Panic _
 
 Example C02s_ex_hyps :
   dims ex_A 27 27 /\ bin_mat ex_A /\ dims ex_hdpc 10 27 /\ bytes_mat ex_hdpc /\ bytes_mat ex_A /\
-  (forall j, j < 27 - 10 -> exists k, k < 27 /\ (k < 7 \/ 7 + 10 <= k) /\ cell ex_A k j = 1).
+  (forall j, j < 27 - 10 -> exists k, k < 27 /\ (k < 7 \/ 7 + 10 <= k) /\ cell ex_A k j = 1) /\
+  (forall k j, 7 <= k < 7 + 10 -> j < 27 - 10 -> cell ex_A k j = 0).
 Proof.
   split; [apply dimsb_ok; vm_compute; reflexivity|].
   split; [apply bin_matb_ok; vm_compute; reflexivity|].
   split; [apply dimsb_ok; vm_compute; reflexivity|].
   split; [apply bytes_matb_ok; vm_compute; reflexivity|].
   split; [apply bytes_matb_ok; vm_compute; reflexivity|].
-  apply coverb_ok. vm_compute. reflexivity.
+  split; [apply coverb_ok; vm_compute; reflexivity|].
+  apply zerob_ok. vm_compute. reflexivity.
 Qed.
 
 Example C02s_ex_some : forall m,
@@ -220,3 +259,9 @@ Print Assumptions C02s_PS_system_complete.
 Print Assumptions C02s_PS_system_no_hdpc_sound.
 Print Assumptions C02s_PS_system_no_hdpc_complete.
 Print Assumptions C02s_PS_plan_sound.
+Print Assumptions C02s_PS_total.
+Print Assumptions C02s_PS_total_no_hdpc.
+Print Assumptions C02s_PS_complete_solve.
+Print Assumptions C02s_PS_complete_solve_no_hdpc.
+Print Assumptions C02s_PS_system_total.
+Print Assumptions C02s_PS_system_total_no_hdpc.
